@@ -2,7 +2,7 @@
 # run_all.sh <tier> <seed> [props...] : runs checks sequentially, prints one line per property
 tier=$1; seed=$2; shift 2
 props=${@:-C01 C02 C03 C04 C05 C06 C07 C08 C09 C10 C11 C12 C13 C14 C15 C16 C17 C18 C19 C20}
-cd /verif
+cd "$(dirname "$0")/.."
 for p in $props; do
   s=$(date +%s)
   VERIF_SEED=$seed ./check $p $tier > /tmp/run_${tier}_${seed}_$p.out 2> /tmp/run_${tier}_${seed}_$p.err
